@@ -92,10 +92,15 @@ def strip_coq_comments(txt):
     return "".join(out)
 
 
-def hygiene():
-    """Forbidden constructs anywhere in the development (comments stripped)."""
+def hygiene(closure=None, prop=None):
+    """Forbidden constructs (comments stripped) in the files the property's theorems depend on: the
+    closure of Properties_<prop>.v and its extraction file; the whole development when no closure is given."""
     bad = []
-    for f in sorted(glob.glob(os.path.join(COQ, "*.v")) + glob.glob(os.path.join(ROOT, "extract", "*.v"))):
+    files = sorted(glob.glob(os.path.join(COQ, "*.v")) + glob.glob(os.path.join(ROOT, "extract", "*.v")))
+    if closure is not None:
+        files = [f for f in files if (os.path.dirname(f) == COQ and os.path.basename(f)[:-2] in closure)
+                 or (os.path.dirname(f) != COQ and prop is not None and os.path.basename(f).startswith(prop + "_"))]
+    for f in files:
         txt = strip_coq_comments(open(f).read())
         for ln, line in enumerate(txt.split("\n"), 1):
             m = FORBIDDEN.search(line)
@@ -116,16 +121,66 @@ def hygiene():
     return bad
 
 
-def regenerate():
-    """L0: regenerate coq/Gen_*.v from REPO. Returns list of problems (strings)."""
+def coq_closure(prop):
+    """Basenames (without .v) of the files Properties_<prop>.v transitively depends on (itself included),
+    from `coqdep`; None if it cannot be computed (then callers fall back to 'everything')."""
+    try:
+        vs = sorted(os.path.basename(f) for f in glob.glob(os.path.join(COQ, "*.v")))
+        rc, out, err = sh2(["coqdep", "-Q", ".", "Muduo"] + vs, cwd=COQ, timeout=300)
+        deps = {}
+        for line in out.splitlines():
+            if ":" not in line:
+                continue
+            lhs, rhs = line.split(":", 1)
+            tg = [t for t in lhs.split() if t.endswith(".vo")]
+            if not tg:
+                continue
+            name = os.path.basename(tg[0])[:-3]
+            deps.setdefault(name, set()).update(os.path.basename(d)[:-3] for d in rhs.split() if d.endswith(".vo"))
+        root = "Properties_%s" % prop
+        if root not in deps:
+            return None
+        seen, todo = set(), [root]
+        while todo:
+            x = todo.pop()
+            if x in seen:
+                continue
+            seen.add(x)
+            todo += list(deps.get(x, ()))
+        return seen
+    except Exception:
+        return None
+
+
+def regenerate(prop=None):
+    """L0: regenerate coq/Gen_*.v from REPO (in parallel).  With `prop`, only the generators whose output
+    the closure of Properties_<prop>.v imports (all of them when a Gen file is missing or the closure is
+    unknown).  Returns list of problems (strings)."""
     problems = []
-    rc, out = sh([sys.executable, os.path.join(ROOT, "lib/gen_consts.py")], env={"VERIF_REPO": REPO}, timeout=600)
-    problems += [l for l in out.splitlines() if l.startswith("MISSING")]
-    for g in sorted(glob.glob(os.path.join(ROOT, "lib/gen_*.py"))):
-        if g.endswith("gen_consts.py"):
-            continue
+    gens = sorted(glob.glob(os.path.join(ROOT, "lib/gen_*.py")))
+
+    def outname(g):
+        b = os.path.basename(g)[4:-3]
+        return "Gen_Consts" if b == "consts" else "Gen_" + b
+    need = None
+    if prop is not None and all(os.path.exists(os.path.join(COQ, outname(g) + ".v")) for g in gens):
+        need = coq_closure(prop)
+    if need is not None:
+        sel = [g for g in gens if outname(g) in need or g.endswith("gen_consts.py")]
+    else:
+        sel = gens
+    # gen_consts first (others may import its output conventions), the rest in parallel
+    first = [g for g in sel if g.endswith("gen_consts.py")]
+    rest = [g for g in sel if not g.endswith("gen_consts.py")]
+
+    def one(g):
         rc, out = sh([sys.executable, g], env={"VERIF_REPO": REPO}, timeout=600)
-        problems += [os.path.basename(g) + ": " + l for l in out.splitlines() if l.startswith(("MISSING", "FALLBACK"))]
+        if g.endswith("gen_consts.py"):
+            return [l for l in out.splitlines() if l.startswith("MISSING")]
+        return [os.path.basename(g) + ": " + l for l in out.splitlines() if l.startswith(("MISSING", "FALLBACK"))]
+    with ThreadPoolExecutor(max_workers=max(1, min(NPROC, len(sel)))) as ex:
+        for r in ex.map(one, first + rest):
+            problems += r
     return problems
 
 
@@ -202,7 +257,7 @@ def coq_prove(prop, extra_targets=()):
            "axioms": [], "log": "", "problems": []}
     pf = os.path.join(COQ, "Properties_%s.v" % prop)
     with Lock("coq"):
-        res["problems"] += regenerate()
+        res["problems"] += regenerate(prop)
         sh([os.path.join(ROOT, "bin/mkcoqproject")])
         targets = ["Properties_%s.vo" % prop] + list(extra_targets)
         rc, out = sh(["make", "-k", "-j%d" % NPROC] + targets, cwd=COQ, timeout=3000)
@@ -238,7 +293,9 @@ def coq_prove(prop, extra_targets=()):
         for x in (a or []):
             axioms.add(x)
     res["axioms"] = sorted(axioms)
-    bad = hygiene()
+    clo = coq_closure(prop)
+    res["closure"] = sorted(clo) if clo else None
+    bad = hygiene(clo, prop)
     if bad:
         res["problems"] += ["hygiene: " + b for b in bad]
     not_allowed = [a for a in res["axioms"] if a not in ALLOWED_AXIOMS and a.split(".")[-1] not in ALLOWED_AXIOMS]
@@ -383,7 +440,10 @@ def build_driver(name, sources, variant="asan", components=("base", "net"), extr
     lib, inc = build_muduo(variant, components)
     cc, vflags = VARIANTS[variant]
     srcs = [os.path.join(ROOT, "harness", s) if not os.path.isabs(s) else s for s in sources]
-    hdrs = glob.glob(os.path.join(ROOT, "harness", "*.h"))
+    fam = name.split("_")[0]
+    hdrs = [h for h in glob.glob(os.path.join(ROOT, "harness", "*.h"))
+            if os.path.basename(h) in ("common.h", "sched.h") or os.path.basename(h).startswith(fam)
+            or any(os.path.basename(h) in open(x, errors="replace").read() for x in srcs if os.path.exists(x))]
     key = sha_files(srcs + hdrs, extra=lib + variant + " ".join(extra_flags) + " ".join(libs) + " ".join(wrap))
     d = os.path.join(WORK, "drivers")
     os.makedirs(d, exist_ok=True)
